@@ -31,6 +31,11 @@ class TrGen(TrAct):
             b, tb = self.expr(e.right, env)
             if ta == "NatL" and a.startswith("[") and tb == "Nat":
                 return f"(List.replicate {b} {a[1:-1]})", "NatL"
+        if isinstance(e, ast.Attribute) and ast.unparse(e) == "u.INTERNET":
+            return "INTERNET", "Nat"
+        if isinstance(e, ast.Attribute) and isinstance(e.value, ast.Name) and e.value.id == "self" and e.attr == "subnets" \
+                and "subnets" in env:
+            return "subnets", "NatL"
         if isinstance(e, ast.BinOp) and isinstance(e.op, ast.FloorDiv):
             a, _ = self.expr(e.left, env)
             b, _ = self.expr(e.right, env)
@@ -42,6 +47,15 @@ class TrGen(TrAct):
                 return f"(List.range {n})", "NatL"                       # the i-th generated name is i
         return super().expr(e, env)
 
+    def topo_store(self, tgt, env):
+        """topology[row][col]"""
+        if isinstance(tgt, ast.Subscript) and isinstance(tgt.value, ast.Subscript) and isinstance(tgt.value.value, ast.Name) \
+                and env.get(tgt.value.value.id, ("", ""))[1:] == ("TopoI",):
+            i, _ = self.expr(tgt.value.slice, env)
+            j, _ = self.expr(tgt.slice, env)
+            return tgt.value.value.id, i, j
+        return None
+
     def compare(self, e, env):
         a, ta = self.expr(e.left, env)
         b, tb = self.expr(e.comparators[0], env)
@@ -51,6 +65,18 @@ class TrGen(TrAct):
 
     def call(self, e, env):
         text = ast.unparse(e.func)
+        if text == "len" and len(e.args) == 1:
+            o, t = self.expr(e.args[0], env)
+            if t == "NatL":
+                return f"{o}.length", "Nat"
+        if text in ("np.zeros", "numpy.zeros") and isinstance(e.args[0], ast.Tuple) and len(e.args[0].elts) == 2:
+            a, _ = self.expr(e.args[0].elts[0], env)
+            b, _ = self.expr(e.args[0].elts[1], env)
+            return f"(PyRt.zerosI {a} {b})", "TopoI"
+        if text == "range" and len(e.args) == 2:
+            a, _ = self.expr(e.args[0], env)
+            b, _ = self.expr(e.args[1], env)
+            return f"(List.range' {a} ({b} - {a}))", "List:Nat"
         if text == "math.ceil" and len(e.args) == 1 and isinstance(e.args[0], ast.BinOp) and isinstance(e.args[0].op, ast.Div):
             a, _ = self.expr(e.args[0].left, env)
             b, _ = self.expr(e.args[0].right, env)
@@ -59,6 +85,17 @@ class TrGen(TrAct):
 
     def assign(self, tgt, value, env, nxt, ind):
         pad = "  " * ind
+        ts = self.topo_store(tgt, env)
+        if ts is not None:
+            if not (isinstance(value, ast.Constant) and value.value == 1):
+                self.err(tgt, "topology entry other than 1")
+            t_, i, j = ts
+            return f"{pad}let {t_} := PyRt.wr {t_} {i} {j}\n" + nxt(env)
+        if isinstance(tgt, ast.Attribute) and isinstance(tgt.value, ast.Name) and tgt.value.id == "self" \
+                and getattr(self, "loop", None) is None and self.fn.name == "_generate_topology":
+            o, t = self.expr(value, env)
+            self.pending = o
+            return nxt(env)
         if isinstance(tgt, ast.Attribute) and isinstance(tgt.value, ast.Name) and tgt.value.id == "self":
             o, t = self.expr(value, env)
             env2 = dict(env)
@@ -92,8 +129,20 @@ class TrGen(TrAct):
             return f"{pad}let {f.value.id} := {f.value.id} ++ [{a}]\n" + nxt(env)
         return super().call_stmt(c, env, nxt, ind)
 
+    def ret_text(self, st, env):
+        if self.fn.name == "_generate_topology" and st.value is None:
+            return getattr(self, "pending", "default")
+        return super().ret_text(st, env)
+
     def assigned(self, stmts, env):
         out = super().assigned(stmts, env)
+        for st in stmts:
+            for x in ast.walk(st):
+                if isinstance(x, ast.Assign):
+                    for t in x.targets:
+                        if isinstance(t, ast.Subscript) and isinstance(t.value, ast.Subscript) \
+                                and isinstance(t.value.value, ast.Name) and t.value.value.id not in out:
+                            out.append(t.value.value.id)
         for st in stmts:
             for x in ast.walk(st):
                 if isinstance(x, ast.Expr) and isinstance(x.value, ast.Call) and isinstance(x.value.func, ast.Attribute) \
@@ -132,4 +181,29 @@ def translate_generator():
         except Untranslatable as e:
             out.append(f"/-- UNTRANSLATABLE {doc} — {str(e).replace('-/', '- /')} -/\n"
                        f"def {fn.lean} ({param} : Nat) : List Nat := default\n")
+    # --- _generate_topology
+    w.gconsts.update({k: int(getattr(gen_mod, k)) for k in ("DMZ", "SENSITIVE", "USER")})
+    from nasim.scenarios import utils as sutils
+    w.gconsts["INTERNET"] = int(sutils.INTERNET)
+    for k in ("DMZ", "SENSITIVE", "USER", "INTERNET"):
+        out.append(f"/-- constant `{k}` -/\ndef {k} : Nat := {w.gconsts[k]}\n")
+    LEAN_TYPE.update({"TopoI": "List (List Int)"})
+    fn = Fn("ScenarioGenerator", "_generate_topology", "ScenarioGenerator._generate_topology", [], "TopoI", self_ty="Gen")
+    fn.kind, fn.prop, fn.classmethod = "function", False, False
+    doc = "`nasim/scenarios/generator.py`: `ScenarioGenerator._generate_topology` (the attribute it sets)"
+    try:
+        node = meth.get("_generate_topology")
+        if node is None:
+            raise Untranslatable("_generate_topology not found")
+        t = TrGen(w, fn, node)
+        t.loop = None
+        pysrc.RAISE_EXITS = True
+        try:
+            body = t.block(node.body, {"subnets": ("val", "NatL")}, lambda e2, i2: "  " * i2 + getattr(t, "pending", "default") + "\n", 1)
+        finally:
+            pysrc.RAISE_EXITS = False
+        out.append(f"/-- {doc} -/\ndef {fn.lean} (subnets : List Nat) : List (List Int) :=\n{body}")
+    except Untranslatable as e:
+        out.append(f"/-- UNTRANSLATABLE {doc} — {str(e).replace('-/', '- /')} -/\n"
+                   f"def {fn.lean} (subnets : List Nat) : List (List Int) := default\n")
     return "\n".join(out)
